@@ -28,4 +28,22 @@
     if (p == verif_pool_##T) verif_pool_used_##T = false;                                                   \
     else if (p) ::operator delete(p);                                                                       \
   }
+// the same model for push_back(T&&) / emplace_back(T)
+#define VERIF_VEC_GROW_MODEL_RV(T, CAP)                                                                     \
+  T verif_pool_##T[CAP]; bool verif_pool_used_##T = false;                                                  \
+  template <> template <>                                                                                   \
+  inline void std::vector<T>::_M_realloc_insert<T>(iterator pos, T &&x) {                                   \
+    verif_assert(pos.base() == this->_M_impl._M_finish, "vector model: insertion point is end()");        \
+    verif_assert(this->_M_impl._M_start == nullptr && !verif_pool_used_##T, "vector model: the first allocation suffices"); \
+    verif_pool_used_##T = true;                                                                             \
+    T *p = verif_pool_##T;                                                                                  \
+    this->_M_impl._M_start = p; this->_M_impl._M_end_of_storage = p + (CAP);                                \
+    *p = x;                                                                                                 \
+    this->_M_impl._M_finish = p + 1;                                                                        \
+  }                                                                                                         \
+  template <>                                                                                               \
+  inline void std::_Vector_base<T, std::allocator<T>>::_M_deallocate(T *p, size_t n) {                      \
+    if (p == verif_pool_##T) verif_pool_used_##T = false;                                                   \
+    else if (p) ::operator delete(p);                                                                       \
+  }
 #endif
